@@ -44,7 +44,9 @@ def _in_iff_family(spec) -> bool:
     if spec["alg"] == "BioCo":
         return True
     if spec["alg"] == "BioConsert" and spec.get("starters"):
-        return all(s["alg"] in IFF_FAMILY for s in spec["starters"])
+        # "BioConsert started from them": the predicate can only answer False because a Borda / PickAPerm (/ BioCo)
+        # starter did, and that starter is run on the incomplete dataset and refuses
+        return any(_in_iff_family(s) for s in spec["starters"])
     return False
 
 
